@@ -153,6 +153,10 @@ theorem eval_isStr (c : Cfg) (f : Field) (b : Bool) : eval c (.isStr f) = .ok b 
 theorem eval_isPath (c : Cfg) (f : Field) (b : Bool) : eval c (.isPath f) = .ok b ↔ (c f).isPath = b := by simp [eval]
 theorem eval_isCallable (c : Cfg) (f : Field) (b : Bool) : eval c (.isCallable f) = .ok b ↔ (c f).isCallable = b := by simp [eval]
 theorem eval_notIn (c : Cfg) (f : Field) (l : List String) (b : Bool) : eval c (.notIn f l) = .ok b ↔ (c f).notIn l = b := by simp [eval]
+theorem eval_isBool (c : Cfg) (f : Field) (b : Bool) : eval c (.isBool f) = .ok b ↔ (c f).isBool = b := by simp [eval]
+theorem eval_isFinite (c : Cfg) (f : Field) : eval c (.isFinite f) = (c f).isFinite := rfl
+theorem eval_allIdxStrict (c : Cfg) (f hi : Field) (loOp hiOp : Cmp) (lo : Int) :
+    eval c (.allIdxStrict f loOp lo hiOp hi) = (c f).allIdxStrict loOp lo hiOp (c hi) := rfl
 theorem eval_cmp0 (c : Cfg) (f : Field) (op : Cmp) : eval c (.cmp0 op f) = (c f).cmp0 op := rfl
 theorem eval_overlap (c : Cfg) (f g : Field) : eval c (.overlap f g) = (c f).overlap (c g) := rfl
 theorem eval_allIdx (c : Cfg) (f hi : Field) (loOp hiOp : Cmp) (lo : Int) :
@@ -238,6 +242,8 @@ def exprFields : Expr → List Field
   | .overlap f g => [f, g]
   | .allIdx f _ _ _ hi => [f, hi]
   | .ltAdd _ f g _ => [f, g]
+  | .isBool f | .isFinite f => [f]
+  | .allIdxStrict f _ _ _ hi => [f, hi]
   | .not e => exprFields e
   | .and a b => exprFields a ++ exprFields b
   | .or a b => exprFields a ++ exprFields b
